@@ -170,8 +170,33 @@ fn emit_scan(sink: &mut Sink, src: &str, tgt: &str, input: &[u8], index: usize, 
     sink.case("scan", &[src, tgt, &hexf(input), &index.to_string()], &o, &format!("scan-{}-{}{}:{}:rest{}", tag, src, tgt, cls, lenc), n > 0);
 }
 
+/// `bytesctl <cfg> <src> <input> => OK:y<hex>; | E:<hex msg>:<cat>:<line>:<col>` — a string literal holding a BARE control character read as
+/// `ByteBuf` through `Deserializer::from_str / from_slice / from_reader` + `end()`. The statement's "the same decoding applies" rejects such
+/// a literal; the crate's non-validating scanner copies the byte (open finding C05-bytes-control-char-accepted).
+fn emit_bytesctl(sink: &mut Sink, src: &str, input: &[u8], tag: &str) {
+    if src == "str" && std::str::from_utf8(input).is_err() { return; }
+    let cfg = crate::obs::cfg_tag();
+    let o = crate::typed::outcome(&crate::schema::Schema::Bytes, src, input, vec![2]);
+    let cls = if o.starts_with("OK") { "accepted" } else { "rejected" };
+    sink.case("bytesctl", &[&cfg, src, &hexf(input)], &o, &format!("bytesctl:{}:{}", tag, cls), true);
+}
+
+/// every control byte alone in a literal, from the three sources; a few in context (after an escape, between multi-byte characters)
+pub fn run_bytesctl(sink: &mut Sink, _thorough: bool, _seed: u64) {
+    for c in 0u8..0x20 {
+        for src in ["str", "slice", "reader"] { emit_bytesctl(sink, src, &[b'"', c, b'"'], "alone"); }
+    }
+    for c in [0x00u8, 0x0a, 0x1f] {
+        let mut inp = b"\"a\\n\xc3\xa9".to_vec(); inp.push(c); inp.extend_from_slice(b"\\ud800z\"");
+        for src in ["str", "slice", "reader"] { emit_bytesctl(sink, src, &inp, "context"); }
+    }
+    // control: the same positions with 0x20 / 0x7f (not control characters) are accepted by the statement too
+    for c in [0x20u8, 0x7f] { for src in ["str", "slice", "reader"] { emit_bytesctl(sink, src, &[b'"', c, b'"'], "plain"); } }
+}
+
 pub fn replay(sink: &mut Sink, toks: &[&str]) {
     match toks[0] {
+        "bytesctl" if toks.len() >= 4 => emit_bytesctl(sink, toks[2], &unhex(toks[3]), "replay"),
         "esc" | "escbufs" if toks.len() >= 2 => {
             let b = unhex(toks[1]);
             match String::from_utf8(b) {
